@@ -8,7 +8,7 @@ ROOT = os.path.dirname(os.path.dirname(os.path.abspath(__file__)))
 COQ = os.path.join(ROOT, "coq")
 HARNESS = os.path.join(ROOT, "harness")
 RUN = os.path.join(COQ, "run")
-REPO = "/repo"
+REPO = os.environ.get("SF_REPO", "/repo")     # overridden only by background snapshot runs (vp run --with-repo)
 HOOK_CFG = "avl_savefile_verif"
 
 ENV = dict(os.environ)
@@ -220,7 +220,7 @@ def coq_eval_values(name, header, terms, timeout=600):
 # ---------------------------------------------------------------- harness
 
 def repo_fingerprint():
-    rc, out = sh("git -C /repo rev-parse HEAD; git -C /repo diff HEAD --stat | tail -1; git -C /repo diff HEAD | sha1sum", timeout=60)
+    rc, out = sh("git -C %s rev-parse HEAD; git -C %s diff HEAD --stat | tail -1; git -C %s diff HEAD | sha1sum" % (REPO, REPO, REPO), timeout=60)
     return out.replace("\n", " ")
 
 
